@@ -97,7 +97,7 @@ func (c compactEngine) Generate(rng *rand.Rand, prop string, thorough bool) *Pla
 	for i := range all {
 		all[i] = i
 	}
-	sizes := []int{12, 16, 40, 100, 200}
+	sizes := []int{0, 12, 16, 40, 100, 200}
 	var pre []Op
 	if chain {
 		sizes = []int{12, 12, 16, 30}
@@ -590,7 +590,7 @@ func (backupEngine) Generate(rng *rand.Rand, prop string, thorough bool) *Plan {
 	for i := range all {
 		all[i] = i
 	}
-	sizes := []int{12, 16, 40, 100, 300}
+	sizes := []int{0, 12, 16, 40, 100, 300}
 	p.Epochs = [][]Op{genClient(rng, cfg, rng.Intn(30), map[string]int{"put": 60, "del": 20}, all, &id, sizes)}
 	// task 1: the single writer
 	p.Tasks = append(p.Tasks, genClient(rng, cfg, 5+rng.Intn(40), map[string]int{"put": 60, "del": 25, "sync": 2}, all, &id, sizes))
